@@ -38,7 +38,7 @@ def cases(tier, seed):
     for m in MODES:
         for i in range(nb):
             out.append(dict(t="buf", mode=m, n=60 if tier == "quick" else 150, seed=R.randrange(1 << 30)))
-    for i in range(40 if tier == "quick" else 3000):
+    for i in range(150 if tier == "quick" else 3000):
         fmt, mode = PAIRS[i % len(PAIRS)]
         out.append(dict(t="hist", fmt=fmt, mode=mode, steps=R.choice([4, 8, 12]), seed=R.randrange(1 << 30)))
     out.append(dict(t="workload", seed=R.randrange(1 << 30)))
@@ -225,8 +225,8 @@ def case_hist(spec, workdir):
     path = os.path.join(base, tilegen.tile_relpath(tuple(pos), fmt))
     ops = []
     for step in range(spec["steps"]):
-        op = R.choice(["write", "write", "write_masked", "read_none", "read_masked", "read_bad", "update", "update"])
-        if mode == "RGB" and op in ("write_masked",):
+        op = R.choice(["write", "write", "write_masked", "read_none", "read_masked", "read_bad", "update", "update", "update", "update_clear", "update_fill", "reread_empty_write"])
+        if mode == "RGB" and op in ("write_masked", "update_clear", "update_fill", "reread_empty_write"):
             op = "write"
         ops.append(op)
         pio = R.choice(handles)
@@ -272,8 +272,38 @@ def case_hist(spec, workdir):
                     ga = np.asarray(got.asarray())
                     if got.mode.name != mode or ga.shape != model.shape or not np.array_equal(ga, model, equal_nan=model.dtype.kind == "f"):
                         probs.append(("roundtrip", "step %d: tile read back differs (mode %s vs %s, %s)" % (step, got.mode.name, mode, "pixels differ" if ga.shape == model.shape else "shape %s" % (ga.shape,))))
+        elif op in ("update_clear", "update_fill"):
+            # the tile object handed out by update_image (loaded from the file when there is one - it then carries whatever
+            # the loader recorded about it) is emptied, or re-filled from a source rectangle, and goes back to the store
+            img, a = rand_image(rng, mode, 256, 256, R.choice([0.0, 0.3, 1.0, 1.0]))
+            rect = (slice(0, R.choice([256, 100])), slice(0, R.choice([256, 60])))
+            with pio.update_image(pos, masked_mode=img.mode, default="masked", **fkw) as basis:
+                if op == "update_clear":
+                    # clear() is documented for writable (not PIL-backed) images only; png tiles are emptied by a fill from
+                    # an entirely undefined source instead
+                    if fmt == "png" or R.random() < 0.4:
+                        und = Image.from_array(tilegen.undefined_like(a, (256, 256)))
+                        und.fill_into_maskable_buffer(basis, slice(None), slice(None), slice(None), slice(None))
+                    else:
+                        basis.clear()
+                    new = tilegen.undefined_like(a, (256, 256))
+                else:
+                    img.fill_into_maskable_buffer(basis, rect[0], rect[1], rect[0], rect[1])
+                    new = contracts.reference_fill(a, mode, (256, 256) + a.shape[2:], a.dtype, rect[0], rect[1], rect[0], rect[1])
+            model = None if indep_undefined(new, mode) else new
+        elif op == "reread_empty_write":
+            # read the stored tile, empty that very object (clear, or a fill from an entirely undefined source) and store it
+            got = pio.read_image(pos, default="masked", masked_mode=im, **fkw)
+            if fmt != "png" and R.random() < 0.5:
+                got.clear()
+            else:
+                img = Image.from_array(tilegen.undefined_like(np.asarray(got.asarray()), (256, 256)))
+                img.fill_into_maskable_buffer(got, slice(0, 90), slice(0, 256), slice(10, 100), slice(0, 256))
+            pio.write_image(pos, got, **fkw)
+            ga = np.asarray(got.asarray())
+            model = None if indep_undefined(ga, mode) else np.array(ga)
         else:
-            img, a = rand_image(rng, mode, 256, 256, R.choice([0.3, 0.8, 1.0]))
+            img, a = rand_image(rng, mode, 256, 256, R.choice([0.0, 0.0, 0.3, 0.8, 1.0]))
             if mode == "RGB":
                 # an RGB source updates an RGBA buffer; an existing 3-channel tile is not a maskable buffer (documented limitation): skip
                 ops[-1] = "update_skipped"
